@@ -30,6 +30,8 @@ class base(GenericEquality, restriction.base):
 
     _evaluate_collapsible = False
     _evaluate_wipe_empty = True
+    # a group left with a single member means the same as that member
+    _evaluate_single_is_member = True
 
     @cached_hash
     def __hash__(self):
@@ -190,7 +192,8 @@ class base(GenericEquality, restriction.base):
         if not self._evaluate_wipe_empty or l:
             if force_collapse or (
                 (issubclass(parent_cls, self.__class__) and self._evaluate_collapsible)
-                or len(l) <= 1
+                or not l
+                or (len(l) == 1 and self._evaluate_single_is_member)
             ):
                 parent_seq.extend(l)
             else:
@@ -652,6 +655,8 @@ class AtMostOneOfRestriction(base):
 
     _evaluate_collapsable = True
     _evaluate_wipe_empty = False
+    # ?? ( a ) holds whether or not a does
+    _evaluate_single_is_member = False
 
     def match(self, vals):
         armed = False
